@@ -95,6 +95,11 @@ func convertAttrToField(attr slog.Attr) zapcore.Field {
 	case slog.KindUint64:
 		return zap.Uint64(attr.Key, attr.Value.Uint64())
 	case slog.KindGroup:
+		if !hasContent(attr) {
+			// Ignore groups that end up without attributes,
+			// as slog's usage contract requires.
+			return zap.Skip()
+		}
 		if attr.Key == "" {
 			// Inlines recursively.
 			return zap.Inline(groupObject(attr.Value.Group()))
@@ -111,6 +116,25 @@ func convertAttrToField(attr slog.Attr) zapcore.Field {
 	default:
 		return zap.Any(attr.Key, attr.Value.Any())
 	}
+}
+
+// hasContent reports whether attr contributes at least one field
+// once its value is resolved: it is neither the empty Attr
+// nor a group whose members, recursively, all lack content.
+func hasContent(attr slog.Attr) bool {
+	attr.Value = attr.Value.Resolve()
+	if attr.Equal(slog.Attr{}) {
+		return false
+	}
+	if attr.Value.Kind() != slog.KindGroup {
+		return true
+	}
+	for _, a := range attr.Value.Group() {
+		if hasContent(a) {
+			return true
+		}
+	}
+	return false
 }
 
 // convertSlogLevel maps slog Levels to zap Levels.
